@@ -37,6 +37,7 @@ def run(tier, seed, replay=None):
         nexp = len(cases)
         ck.extra["tlc_exported_lps"] = nexp
         cases += [drv.gen(rng, big=(i % 3 == 0)) for i in range(900 if tier == "quick" else 10000)]
+        cases += [drv.gen_negative_rhs(rng) for _ in range(2000 if tier == "quick" else 40000)]
         # no variables: every row reads 0 <= b_i
         cases += [{"A": [[] for _ in b], "b": b, "c": []} for b in ([-1], [1], [0, 2], [1, -1], [0])]
     res = run_tasks("lp", "run_lp", cases, timeout=120)
